@@ -15,6 +15,7 @@ import (
 	chaindeep "golang.org/x/telemetry/internal/verifgen/deep/er/path.with.dots/chain"
 	chainv2 "golang.org/x/telemetry/internal/verifgen/ex.ample-pkg/v2"
 	chainplain "golang.org/x/telemetry/internal/verifgen/plain"
+	"golang.org/x/telemetry/internal/verifref"
 	"golang.org/x/telemetry/internal/verifrt"
 )
 
@@ -308,7 +309,7 @@ func c15Stacks(t *testing.T) {
 func c15Decode(t *testing.T) {
 	const check = "C15.decode"
 	res := verifrt.NewResult(check)
-	res.Rule = "DecodeStack / IsStackCounter on generated strings (random bytes, ditto-heavy, no dots, only dots, newline runs, up to 1MB): returns within the loop-tick budget without panic; identity when there is no newline; IsStackCounter <=> contains newline; decoding is idempotent on its own output when no line starts with a bare ditto. distinct = distinct inputs"
+	res.Rule = "DecodeStack / IsStackCounter on generated strings (random bytes, ditto-heavy, no dots, only dots, newline runs, up to 1MB): returns within the loop-tick budget without panic; identity when there is no newline; equal to an independent implementation of the expansion rule otherwise; IsStackCounter <=> contains newline; decoding is idempotent on its own output when no line starts with a bare ditto. distinct = distinct inputs"
 	n := verifrt.Scale(20000, 1000000)
 	alphabet := []string{"\n", "\"", ".", "a", "b/c", "x.y", "\".f", ":+1", "\n\".", "..", "\n\n", "é", "\x00"}
 	for i := 0; i < n; i++ {
@@ -365,6 +366,12 @@ func c15Decode(t *testing.T) {
 			res.Hit("with-newline")
 			if strings.Count(out, "\n") != strings.Count(s, "\n") {
 				res.Violate("decode-line-count", fmt.Sprintf("DecodeStack changed the number of lines of %.60q", s), replay)
+			}
+			// the documented rule, from an independent implementation: a line whose
+			// import path is a bare ditto mark takes the path of the nearest line
+			// above it (the name line excluded) that has one
+			if want := verifref.ExpandStack(s); out != want {
+				res.Violate("decode-differs-from-rule", fmt.Sprintf("DecodeStack(%.80q) = %.80q, the expansion rule gives %.80q", s, out, want), replay)
 			}
 		}
 	}
